@@ -308,6 +308,72 @@ pub fn cmd_run(file: &str, ty: &str, out: &str, nslots: usize) {
 }
 
 /// Random scenarios beyond the model's bounds: large alphabets, skewed profiles, long items.
+/// Comparison-heavy scenarios (C15): the same small items stored raw and Huffman-coded, prefixes of
+/// one another, equal content in different containers, different lengths; all pairs compared.
+pub fn cmd_gen_cmp(seed: u64, count: usize, out: &str, ty: &str) {
+    let mut rng = StdRng::seed_from_u64(seed);
+    let mut f = std::io::BufWriter::new(std::fs::File::create(out).expect("create"));
+    let maxsym: u64 = if ty == "u8" { 250 } else { 60000 };
+    for _ in 0..count {
+        let nsym = rng.gen_range(1..5);
+        let mut syms: Vec<u64> = vec![];
+        while syms.len() < nsym {
+            let s = rng.gen_range(0..maxsym);
+            if !syms.contains(&s) {
+                syms.push(s);
+            }
+        }
+        syms.sort();
+        let nitems = rng.gen_range(3..6);
+        let mut items: Vec<Vec<u64>> = vec![vec![]];
+        while items.len() < nitems {
+            let base = items[rng.gen_range(0..items.len())].clone();
+            let mut it = base;
+            match rng.gen_range(0..3) {
+                0 => it.push(syms[rng.gen_range(0..syms.len())]),
+                1 => {
+                    it = (0..rng.gen_range(1..10)).map(|_| syms[rng.gen_range(0..syms.len())]).collect();
+                }
+                _ => {
+                    if let Some(l) = it.last_mut() {
+                        *l = syms[rng.gen_range(0..syms.len())];
+                    } else {
+                        it.push(syms[0]);
+                    }
+                }
+            }
+            items.push(it);
+        }
+        let mut ops: Vec<Value> = vec![];
+        for it in &items {
+            ops.push(json!({"op": "push", "s": 1, "v": it}));
+        }
+        // make sure every symbol is in the statistics
+        ops.push(json!({"op": "push", "s": 2, "v": syms}));
+        ops.push(json!({"op": "merge", "d": 3, "srcs": [1, 2]}));
+        let mut order: Vec<usize> = (0..items.len()).collect();
+        for i in (1..order.len()).rev() {
+            order.swap(i, rng.gen_range(0..=i));
+        }
+        for &k in &order {
+            ops.push(json!({"op": "push", "s": 3, "v": items[k]}));
+        }
+        let n = items.len();
+        for i in 0..n {
+            for j in 0..n {
+                // raw vs coded, coded vs raw, coded vs coded, raw vs raw
+                ops.push(json!({"op": "cmp", "s": 1, "i": i, "s2": 3, "i2": j}));
+                ops.push(json!({"op": "cmp", "s": 3, "i": i, "s2": 1, "i2": j}));
+                if (i + j) % 2 == 0 {
+                    ops.push(json!({"op": "cmp", "s": 3, "i": i, "s2": 3, "i2": j}));
+                    ops.push(json!({"op": "cmp", "s": 1, "i": i, "s2": 1, "i2": j}));
+                }
+            }
+        }
+        writeln!(f, "{}", json!({"nslots": 3, "ops": ops})).unwrap();
+    }
+}
+
 pub fn cmd_gen(seed: u64, count: usize, out: &str, ty: &str) {
     let mut rng = StdRng::seed_from_u64(seed);
     let mut f = std::io::BufWriter::new(std::fs::File::create(out).expect("create"));
